@@ -544,6 +544,7 @@ func ruleC13(w *World) {
 	w.floor("C13.R2", 10)
 	w.floor("C13.R3", 12)
 	w.floor("C13.R5", 1)
+	w.floor("C13.R6", 3)
 	minKey, _ := w.constInt(hashPath, "KmacMinKeyLen")
 	// R1
 	if fn := w.mustFn("C13.R1", hashPath, "NewKMAC_128"); fn != nil {
@@ -681,10 +682,109 @@ func ruleC13(w *World) {
 			w.undecided("C13.R2", "anchor:"+tn, token.NoPos, "unresolved anchor")
 		}
 	}
+	// R6: sponge buffer discipline — after bytes are appended to the partial block, the `buffer full ⇒ permute`
+	// test runs before write returns or appends again, so the buffer never stays full (padAndPermute needs room
+	// for the domain byte)
+	if spongeT != nil {
+		w.ruleSpongeBuffer("C13.R6", spongeT)
+	}
 	// R3: sponge literals (syntax level: composite literals of the sponge type)
 	w.ruleSpongeLiterals("C13.R3", spongeT)
 	// R5: bytepad congruence
 	w.ruleBytepad("C13.R5")
+}
+
+func (w *World) ruleSpongeBuffer(rule string, spongeT *types.Named) {
+	wr := w.method(spongeT, "write")
+	if wr == nil {
+		w.undecided(rule, "anchor:write", token.NoPos, "unresolved anchor: sponge write")
+		return
+	}
+	d := P(wr, 0)
+	full := "(" + d + ".bufSize == " + d + ".rate)"
+	isCheck := func(b *ssa.BasicBlock) bool {
+		ifi, ok := b.Instrs[len(b.Instrs)-1].(*ssa.If)
+		if !ok || render(ifi.Cond) != full {
+			return false
+		}
+		// the true edge permutes
+		for _, ins := range b.Succs[0].Instrs {
+			if c, ok := ins.(*ssa.Call); ok && c.Call.StaticCallee() != nil && c.Call.StaticCallee().Name() == "permute" {
+				return true
+			}
+		}
+		return false
+	}
+	apps := callsTo(wr, "appendBuf")
+	if len(apps) == 0 {
+		w.undecided(rule, fnKey(wr)+"/appendBuf", wr.Pos(), "buffered absorb path not recognised")
+		return
+	}
+	for _, a := range apps {
+		ai := a.(ssa.Instruction)
+		// forward search from the append: reaching a return or another absorb step before the full-buffer test is a violation
+		bad := ""
+		seen := map[*ssa.BasicBlock]bool{}
+		var walk func(b *ssa.BasicBlock, from int)
+		walk = func(b *ssa.BasicBlock, from int) {
+			if bad != "" {
+				return
+			}
+			for i := from; i < len(b.Instrs); i++ {
+				switch x := b.Instrs[i].(type) {
+				case *ssa.Return:
+					bad = "write can return right after appending to the buffer without testing whether it is full (at " + w.pos(posOf(x)) + ")"
+					return
+				case *ssa.Call:
+					if c := x.Call.StaticCallee(); c != nil && (c.Name() == "appendBuf" || c.Name() == "xorIn") && ssa.Instruction(x) != ai {
+						bad = "another absorb step (" + c.Name() + ") can follow an append without the buffer-full test in between"
+						return
+					}
+				}
+			}
+			if isCheck(b) {
+				return
+			}
+			for _, s := range b.Succs {
+				if !seen[s] {
+					seen[s] = true
+					walk(s, 0)
+				}
+			}
+		}
+		walk(ai.Block(), instrIndex(ai)+1)
+		w.check(bad == "", rule, fnKey(wr)+"/full-buffer-test-after-append", ai.Pos(), "every append is followed by the buffer-full ⇒ permute test before write returns or absorbs again", bad+": a later SumHash pads a full buffer (digest wrong for inputs that end exactly on a block boundary after a split write)")
+	}
+	// the fast path absorbs whole blocks only when the buffer is empty
+	for _, x := range callsTo(wr, "xorIn") {
+		fs := w.factsAt(x.(ssa.Instruction))
+		w.check(hasFact(fs, d+".bufSize == 0") && hasFact(fs, "len("+render(sliceBase(x.Common().Args[1]))+") >= "+d+".rate") || hasFactPrefixSuffix(fs, d+".bufSize == 0"), rule, fnKey(wr)+"/fast-path-empty-buffer", x.Pos(), "whole blocks are absorbed directly only when nothing is buffered", "the fast path absorbs input while bytes are still buffered (order of absorbed bytes changes)", factStrings(fs)...)
+	}
+	// padAndPermute: domain byte appended, zero fill to the rate, final bit, permute
+	if pp := w.method(spongeT, "padAndPermute"); pp != nil {
+		var seq []string
+		for _, c := range methodCalls(pp) {
+			seq = append(seq, c.name)
+		}
+		s2 := strings.Join(seq, ";")
+		okk := strings.Contains(s2, "appendBuf") && strings.HasSuffix(strings.TrimSuffix(s2, ";setBuf"), "permute") && strings.Index(s2, "appendBuf") < strings.Index(s2, "permute")
+		xor := false
+		instrs(pp, func(ins ssa.Instruction) {
+			if st, ok := ins.(*ssa.Store); ok && strings.Contains(render(st.Val), "^ 128") && strings.Contains(render(st.Addr), "("+P(pp, 0)+".rate - 1)") {
+				xor = true
+			}
+		})
+		w.check(okk && xor, rule, fnKey(pp)+"/padding-shape", pp.Pos(), "pad10*1: domain byte appended, last rate byte ^= 0x80, then permute", "padding sequence changed: calls "+s2+fmt.Sprintf(", final-bit xor at rate-1 present=%v", xor))
+	}
+}
+
+func hasFactPrefixSuffix(fs []Fact, want string) bool {
+	for _, f := range fs {
+		if f.Expr == want {
+			return true
+		}
+	}
+	return false
 }
 
 func instrDominates(a, b ssa.Instruction) bool {
